@@ -4,7 +4,7 @@
 UNITS = {
     "prim": dict(verify=["common.vc"], trusted=[], spec=["wire.rs"]),
     "topic": dict(verify=["topic.vc"], trusted=["common.vc"], spec=[], spec_import=["wire.rs"]),
-    "v5props": dict(verify=["v5types.vc", "v5props.vc"], trusted=["common.vc", "topic.vc"], spec=["props5.rs"], spec_import=["wire.rs", "wire5.rs"]),
+    "v5props": dict(verify=["v5types.vc", "v5props.vc"], trusted=["common.vc", "topic.vc"], spec=["props5.rs"], spec_import=["wire.rs", "wire5.rs"], module_ext=False),
     "v5pdec": dict(verify=["v5pdec.vc"], trusted=["common.vc", "topic.vc", "v5types.vc", "v5props.vc"], spec=[], spec_import=["wire.rs", "wire5.rs", "props5.rs"]),
     "v5acks": dict(verify=["v5acks.vc"], trusted=["common.vc", "topic.vc", "v5types.vc", "v5props.vc", "v5pdec.vc"], spec=[], spec_import=["wire.rs", "wire5.rs", "props5.rs"]),
     "v5body": dict(verify=["v5codes.vc", "v5.vc"], trusted=["common.vc", "topic.vc", "v5types.vc", "v5props.vc", "v5pdec.vc"], spec=[], spec_import=["wire.rs", "wire5.rs", "props5.rs"]),
